@@ -524,6 +524,29 @@ fn gen(opts: &Opts) -> Vec<Case> {
         };
         out.push(Case { chain: chain.clone(), eps, order2, resp, slots, ep_tags, cfg_tags });
     }
+    // documents beyond the sizes the random stream reaches: deep templates,
+    // hundreds of sibling paths, long literals, many ranges on one path, many
+    // variables (the router's large-scope tables), every endpoint tagged from a
+    // large tag set
+    for rc in dsverif::router::gen_large(opts) {
+        let std_methods = ["GET", "PUT", "POST", "DELETE", "OPTIONS", "HEAD", "PATCH", "TRACE"];
+        if rc.eps.iter().any(|e| !std_methods.contains(&e.method.to_uppercase().as_str())) {
+            continue;
+        }
+        if rc.eps.len() > 300 || rc.eps.iter().any(|e| e.path.len() > 1500) {
+            continue;
+        }
+        let mut eps = rc.eps;
+        for (i, e) in eps.iter_mut().enumerate() {
+            e.visible = i % 7 != 3;
+        }
+        let mut order2: Vec<usize> = (0..eps.len()).collect();
+        rng.shuffle(&mut order2);
+        let resp: Vec<usize> = eps.iter().map(|_| rng.below(NSLOTS)).collect();
+        let slots: Vec<SlotSpec> = (0..NSLOTS).map(|k| gen_slot(&mut rng, k)).collect();
+        let ep_tags: Vec<Vec<String>> = (0..eps.len()).map(|i| vec![format!("tag{:03}", (i * 7) % 97), format!("Tag{:03}", i % 41)]).collect();
+        out.push(Case { chain: rc.chain, eps, order2, resp, slots, ep_tags, cfg_tags: vec!["tag000".into(), "zzz".into()] });
+    }
     out
 }
 
